@@ -768,7 +768,16 @@ def prop_fission(r, S, pid, f):
     x = _pick(r, cands)
     if not x:
         return None
-    return [A_gap(pid, x[0], r.random() < 0.6)], {"n_lifts": r.choice([1, 1, 2, 2, 3])}
+    after = r.random() < 0.6
+    if r.random() < 0.8:
+        # mostly well-formed requests: a gap strictly inside its block, no more lifts than enclosing scopes
+        _, _, idx, n = f.block_of(x[0])
+        if n < 2:
+            return None
+        after = idx < n - 1 if (idx == 0 or idx == n - 1) else after
+        depth = len(x[0]) - 1
+        return [A_gap(pid, x[0], after)], {"n_lifts": min(depth, r.choice([1, 1, 2, 2, 3]))}
+    return [A_gap(pid, x[0], after)], {"n_lifts": r.choice([1, 1, 2, 2, 3])}
 
 
 def prop_autofission(r, S, pid, f):
@@ -1637,7 +1646,7 @@ def generate_and_run(seed: int, cfg: dict, log_keep=False) -> dict:
     stratum = cfg.get("stratum")
     if stratum:
         gen_cfg["motifs"] = [stratum[0]]
-        if stratum[0] in ("config", "cfg_rwo", "cfg_callee"):
+        if stratum[0] in ("config", "cfg_rwo", "cfg_callee", "cfg_cond"):
             gen_cfg["configs"] = True
     data = {
         "engine": "session",
